@@ -3,4 +3,5 @@
 SPECIFICATION Spec
 CONSTANTS Prop = "C12"
   Devs = {"OpenBraceGapDropped", "SameLineStatementsGlued", "ElseOnNewLineGainsBlankLine"}
+  MaxWidth = 65535
 POSTCONDITION Consumed
